@@ -204,12 +204,68 @@ func runCond(args []string) []string {
 	}
 	for _, ev := range strings.Split(args[0], ",") {
 		p := strings.Split(ev, ":")
+		if p[0] == "B" {
+			// a burst: requests with these codes sent at the same moment on separate connections
+			var codes []int
+			for _, c := range strings.Split(p[1], "+") {
+				n, _ := strconv.Atoi(c)
+				codes = append(codes, n)
+			}
+			var bw sync.WaitGroup
+			start := make(chan struct{})
+			for _, c := range codes {
+				cl, cc := connect(y)
+				conns = append(conns, cc)
+				cc.SetDeadline(time.Now().Add(3 * time.Second))
+				bw.Add(1)
+				go func(c int) {
+					defer bw.Done()
+					<-start
+					if c == 35 {
+						cl.Wait(255)
+					} else {
+						cl.Forward([]byte{byte(c)})
+					}
+				}(c)
+			}
+			close(start)
+			bw.Wait()
+			expect := 0
+			for _, c := range waitingOn {
+				for _, b := range codes {
+					if c == b {
+						expect++
+						break
+					}
+				}
+			}
+			got := collect(expect)
+			for _, t := range got {
+				delete(waitingOn, t)
+			}
+			out = append(out, show(got))
+			continue
+		}
 		code, _ := strconv.Atoi(p[1])
-		if p[0] == "r" {
+		if p[0] == "r" || p[0] == "R" {
 			cl, cc := connect(y)
 			conns = append(conns, cc)
 			cc.SetDeadline(time.Now().Add(3 * time.Second))
-			if code == 35 {
+			if p[0] == "R" {
+				// a well-formed request with that code, one that takes effect (R:22 really locks the agent)
+				switch code {
+				case 22:
+					cl.Lock([]byte("pw"))
+				case 23:
+					cl.Unlock([]byte("pw"))
+				case 11:
+					cl.List()
+				case 19:
+					cl.RemoveAll()
+				default:
+					cl.Forward([]byte{byte(code)})
+				}
+			} else if code == 35 {
 				cl.Wait(255) // a wait request for a code outside the table: returns at once
 			} else {
 				cl.Forward([]byte{byte(code)})
@@ -278,7 +334,22 @@ func genCond(g *hx.Gen, out *hx.Out) {
 		other := (c + 1) % 40
 		emit(fmt.Sprintf("w1:%d,r:%d,r:%d", c, other, c))
 	}
-	codes := []int{0, 1, 11, 13, 17, 18, 19, 22, 25, 27, 31, 32, 35, 39, 40, 41, 200, 255}
+	// the same while the agent is locked, and across an unlock: a request still releases the waiters on its code
+	for _, c := range []int{0, 11, 13, 19, 22, 23, 32, 35, 39, 200} {
+		emit(fmt.Sprintf("R:22,w1:%d,r:%d,R:%d", c, (c+1)%40, c))
+		emit(fmt.Sprintf("w1:%d,R:22,w2:%d,R:%d,R:23,w3:%d,R:%d", c, c, c, c, c))
+	}
+	// bursts: several waiters, then requests with different codes at the same moment — every waiter on
+	// one of the codes is released, none of the others
+	for rep := 0; rep < 6; rep++ {
+		for _, pr := range [][2]int{{11, 13}, {13, 11}, {19, 39}, {0, 1}} {
+			a, b := pr[0], pr[1]
+			emit(fmt.Sprintf("w1:%d,w2:%d,w3:%d,B:%d+%d,r:%d", a, a, a, a, b, a))
+			emit(fmt.Sprintf("w1:%d,w2:%d,w3:%d,w4:%d,B:%d+%d+200+%d,r:%d,r:%d", a, b, a, b, a, b, b, a, b))
+			emit(fmt.Sprintf("w1:%d,w2:%d,w3:32,B:%d+%d+%d+%d+%d+%d,r:%d,r:32", a, a, a, b, b, b, b, b, a))
+		}
+	}
+	codes := []int{0, 1, 11, 13, 17, 18, 19, 22, 25, 27, 31, 32, 35, 39, 40, 41, 200, 255, 23, 22}
 	for i := 0; i < *hx.Count; i++ {
 		k := 3 + g.Intn(8)
 		var evs []string
@@ -293,7 +364,7 @@ func genCond(g *hx.Gen, out *hx.Out) {
 				tid++
 				evs = append(evs, fmt.Sprintf("w%d:%d", tid, c))
 			} else {
-				evs = append(evs, fmt.Sprintf("r:%d", c))
+				evs = append(evs, fmt.Sprintf("%s:%d", g.Pick([]string{"r", "r", "R"}), c))
 			}
 		}
 		emit(strings.Join(evs, ","))
